@@ -66,7 +66,7 @@ namespace sim {
 void register_c05() {
     Property p;
     p.id = "C05"; p.level = "exploration";
-    p.rule = "one evaluation = one seeded writer plan (same generator as C01; 1 in 6 with one write_batch call with an out-of-range column index slipped in, which must be refused) whose image, after carquet_writer_close == OK, is parsed and fully decoded by the independent peer reader with all structural checks (magics, footer length, required Thrift fields, chunk tiling, page chain, counts, encodings, codec decode, CRC vs zlib, uncompressed sizes, totals) and compared with the model; then written a second time under different allocator dirt/addresses/stdio buffering and compared byte for byte; non-trivial and distinct as in C01";
+    p.rule = "one evaluation = one seeded writer plan (generator of C01 plus top-level REPEATED leaves written with definition and repetition levels and unsigned-annotated integer columns; 1 in 6 with one write_batch call with an out-of-range column index slipped in, which must be refused, or with one write_batch left out so that the columns of a row group differ in length: then only 'close OK => the peer accepts the file' is asked) whose image, after carquet_writer_close == OK, is parsed and fully decoded by the independent peer reader with all structural checks (magics, footer length, required Thrift fields, chunk tiling, page chain, counts, encodings, codec decode, CRC vs zlib, uncompressed sizes, totals) and compared with the model; then written a second time under different allocator dirt/addresses/stdio buffering and compared byte for byte; non-trivial and distinct as in C01";
     p.quick_runs = 30000; p.thorough_runs = 1500000;
     p.run = run_c05;
     p.assumptions = {"the peer reader implements parquet.thrift / Encodings.md / Snappy / LZ4 block format independently; zlib and zstd are the system libraries",
